@@ -128,11 +128,13 @@ class C07(Base):
         speed = math.sqrt(sum(c * c for c in v0))
         if self.speed0 is None:
             self.speed0 = speed
-        if abs(speed - self.speed0) > 1e-12 * self.speed0:
+        # (the sequential-direction end-of-chain handler rotates the previous velocity, so one rounding per rotation compounds:
+        # 1e-16 relative per event is allowed on top of 1e-12)
+        if abs(speed - self.speed0) > (1e-12 + 2e-16 * bus.n_events) * self.speed0:
             self.viol(bus, "speed-changed", f"speed {speed!r} after {cname}, initial speed {self.speed0!r}")
         for k in moving[1:]:
             v = S2[k][1]
-            if any(abs(v[d] - v0[d]) > 1e-12 * self.speed0 for d in range(len(v0))):
+            if any(abs(v[d] - v0[d]) > (1e-12 + 2e-16 * bus.n_events) * self.speed0 for d in range(len(v0))):
                 self.viol(bus, "several-velocities", f"moving point masses {moving[0]} and {k} have velocities {v0} / {v}")
         if len(moving) > 1:
             roots = {k[:1] for k in moving}
